@@ -415,7 +415,7 @@ impl Palette {
                 }
                 Err(err) => return Err(anyhow::anyhow!("Invalid input: {err}")),
             },
-            PaletteFormat::Ase => todo!(),
+            PaletteFormat::Ase => return Err(anyhow::anyhow!("Adobe Swatch Exchange (.ase) palettes are not supported")),
         }
         Ok(Self {
             title,
@@ -521,7 +521,10 @@ impl Palette {
 
                 return res.as_bytes().to_vec();
             }
-            PaletteFormat::Ase => todo!(),
+            PaletteFormat::Ase => {
+                log::error!("Adobe Swatch Exchange (.ase) palettes are not supported");
+                Vec::new()
+            }
         }
     }
 
